@@ -127,7 +127,8 @@ fn run(case: &ICase, out: &mut IOutcome, log: &mut Vec<u8>) -> Result<(), Failur
             let got = h.join().map_err(|_| fail("panic", bi, "reader thread panicked".into()))?.map_err(|e| fail("incremental_read_failed", bi, e))?;
             let got = as_set(&got);
             out.reads_checked += 1;
-            log.extend_from_slice(format!("batch {bi} reader@{pos} -> {got:?}\n").as_bytes());
+            // which prefix a reader observed depends on real timing: the log records only that it was checked
+            log.extend_from_slice(format!("batch {bi} reader@{pos} checked\n").as_bytes());
             let ok = states[pos..].iter().any(|s| s.iter().cloned().collect::<Vec<T>>() == got);
             if !ok {
                 return Err(fail(
